@@ -116,8 +116,23 @@ def parse_tokens(line):
             a, b = t.split("|", 1)
         else:
             a, b = t, ""
-        toks.append((a, [x for x in b.split(";") if x]))
+        toks.append((a.split("#")[0], [x for x in b.split(";") if x]))
     return toks
+
+
+def norm(line):
+    """what is compared between implementation and model: error variants and the kind reported by refill_once are
+    not constrained by the property and collapse to E / Y"""
+    out = []
+    for t in line.split(","):
+        a, _, b = t.partition("|")
+        head, _, cnt = a.partition("#")
+        if head.startswith("E"):
+            head = "E"
+        elif head.startswith("Y"):
+            head = "Y"
+        out.append(head + ("#" + cnt if cnt else "") + "|" + b)
+    return out
 
 
 def hx(s):
@@ -241,7 +256,18 @@ def run_batch(ctx, exe, drv, cases, kind):
     if not ok:
         ctx.tie_broken("harness c14 crashed or hung", err)
         return
-    for (f, _), line, e, io in zip(cases, hl, exp, iout):
+    judge(ctx, exe, kind, [f for f, _ in cases], hl, exp, iout)
+
+
+def judge(ctx, exe, kind, filters, hl, exp, iout):
+    for f, line, e, io in zip(filters, hl, exp, iout):
+        if "HANG|" in io:
+            # a wait with the 2 s stand-in for Infinite timed out although the model says its message is there:
+            # before that counts, the sequence runs once more, alone, with a 20 s deadline
+            ctx.count("HANG re-runs")
+            rc, again, _ = vlib.run_lines(exe, [], [line], timeout=600, env={"C14_LONG_MS": "20000"})
+            if rc == 0 and len(again) == 1:
+                io = again[0]
         ops = line.split(" ", 2)[2].split(",")
         toks = parse_tokens(io)
         narr = sum(1 for o in ops if o.startswith("a:") or o == "af")
@@ -266,6 +292,11 @@ def run_batch(ctx, exe, drv, cases, kind):
         ctx.count("filter:%d" % f)
         ctx.count("arrivals:%d" % narr)
         ctx.count("rejected arrivals", nrej)
+        tiny = [(o, t) for o, t in zip(ops, toks) if o.rsplit(":", 1)[-1].startswith("u")]
+        if tiny:
+            ctx.count("operations with a deadline of 0-200 us while messages are queued", len(tiny))
+            ctx.count("  ... that timed out", sum(1 for o, t in tiny if t[0] == "T"))
+            ctx.count("  ... that returned their message", sum(1 for o, t in tiny if t[0][:1] in "MY"))
         ctx.count("results:timed out", sum(1 for t in toks if t[0] == "T"))
         ctx.count("results:message", sum(1 for t in toks if t[0].startswith("M")))
         ctx.count("errors seen at peer", sum(len(t[1]) for t in toks))
@@ -275,10 +306,79 @@ def run_batch(ctx, exe, drv, cases, kind):
         if verdict is not None:
             ctx.disagreements_checked += 1
             ctx.violation(verdict, data)
-        elif io != e:
+        elif norm(io) != norm(e):
             ctx.disagreements_checked += 1
             ctx.tie_broken("correspondence: implementation and model differ on an operation sequence on which the property itself is "
                            "not violated", str(data)[:3000])
+
+
+TINY_US = [0, 1, 2, 3, 4, 5, 6, 8, 10, 12, 15, 20, 25, 30, 40, 50, 70, 100, 150, 200]
+
+
+def gen_tiny(r):
+    """whole arrivals, then waits / refill_once whose deadline is so close that it may pass while the call is at work;
+    every other blocking operation is non-blocking (mode N), so no timeout mode depends on the branch taken"""
+    msgs = gen_messages(r, r.choice([2, 3, 4, 5, 6]))
+    r.shuffle(msgs)
+    serials = [reply_serial(a) for a in msgs if reply_serial(a)]
+    ops = []
+    k = r.randrange(1, len(msgs) + 1)
+    ops += ["a:" + a for a in msgs[:k]]
+
+    def tiny():
+        u = "u%d" % r.choice(TINY_US)
+        c = r.random()
+        if c < 0.3:
+            return "ws:" + u
+        if c < 0.6:
+            return "wc:" + u
+        if c < 0.85:
+            return "wr:%d:%s" % (r.choice(serials) if serials and r.random() < 0.9 else 98, u)
+        return "ro:" + u
+
+    for _ in range(r.choice([1, 2, 3, 4])):
+        ops.append(tiny())
+        if r.random() < 0.3:
+            ops.append(r.choice(["ts", "tc", "ws:N", "wc:N", "ro:N"] + ["tr:%d" % x for x in serials[:1]]))
+    ops += ["a:" + a for a in msgs[k:]]
+    for _ in range(r.choice([0, 1, 2])):
+        ops.append(tiny())
+    ops += ["ra", "ra"]
+    n = len(msgs)
+    ops += ["ts"] * (n + 1) + ["tc"] * (n + 1) + ["tr:%d" % x for x in serials] + ["tr:%d" % x for x in serials]
+    return ops
+
+
+def run_tiny_batch(ctx, exe, drv, cases):
+    """The implementation runs first; an operation with a tiny deadline reports what happened (time-out or
+    message) and how many arrivals it read.  The model is then asked for exactly that branch: a time-out after
+    n refills is its `budget` = n, a message is an unlimited budget.  Both branches are admissible; whichever is
+    taken, the results must agree with the model from there on and the drained sequence must satisfy the property."""
+    hl = ["run %d %s" % (f, ",".join(ops)) for f, ops in cases]
+    ok, iout, err = vlib.par_run_lines(exe, [], hl)
+    if not ok:
+        ctx.tie_broken("harness c14 crashed or hung", err)
+        return
+    ml = []
+    for (f, ops), io in zip(cases, iout):
+        mops = []
+        for o, t in zip(ops, io.split(",")):
+            mode = o.rsplit(":", 1)[-1]
+            if not mode.startswith("u"):
+                mops.append(o)
+                continue
+            head, _, cnt = t.partition("|")[0].partition("#")
+            base = o.rsplit(":", 1)[0]
+            if head == "T" and cnt.isdigit():
+                mops.append("nop" if base == "ro" and cnt == "0" else base + (":B" if base == "ro" else ":b" + cnt))
+            else:
+                mops.append(base + ":B")
+        ml.append("run %d %s" % (f, ",".join(mops)))
+    ok, mout, err = vlib.par_run_lines(drv, [], ml)
+    if not ok:
+        ctx.tie_broken("extracted model driver c14 crashed", err)
+        return
+    judge(ctx, exe, "tiny deadlines", [f for f, _ in cases], hl, [m.split(" ", 1)[1] for m in mout], iout)
 
 
 def run(ctx):
@@ -291,14 +391,17 @@ def run(ctx):
                 "with try/wait/refill operations between the pieces; the model sees such an arrival when it is complete), followed by a complete drain (refill_all, then try_get_signal/call n+1 times and "
                 "try_get_response twice per reply serial). Blocking operations use a 2 s timeout (standing in for Infinite) when the model finds the "
                 "message, Nonblock when it does not and the socket is non-empty, Duration(1ms) on an empty socket. non-trivial = at "
-                "least two arrivals and a wait/refill operation before the final one; distinct = distinct (filter, sequence)")
+                "least two arrivals and a wait/refill operation before the final one; distinct = distinct (filter, sequence). Extra stream "
+                "'tiny deadlines': wait_* / refill_once with Duration(0..200 us) while messages are queued; the harness reports the "
+                "outcome and how many arrivals the call read (FIONREAD), the model is run along that branch")
     ctx.trusted = ["Coq 8.16.1 kernel (coqc), no native_compute", "extraction with ExtrOcamlBasic only, ocamlfind ocamlopt 4.13.1",
                    "ocaml/c14/driver.ml and harness/src/bin/c14.rs (I/O wrappers; the filter table is written in Conn/Rpc.v and in c14.rs - both print their verdict per arrival and these are compared)",
                    "RecvConn::get_next_message and SendConn::send_message/write_all are black boxes in the model (properties C09, C10)"]
     ctx.assumptions = ["replies and errors carry pairwise distinct reply serials (HashMap::insert would otherwise replace the earlier one - shown as an Example)",
                        "arrivals are messages the wire format can carry (type 1..4; replies/errors have a reply serial - guaranteed by validate_header_fields)",
-                       "time-outs that strike between two refills of one wait call are covered by the proof (budget argument) but cannot be produced deterministically on the real connection",
-                       "sending the unknown-method error succeeds (the peer keeps reading)"]
+                       "time-outs that strike between two refills of one wait call (the model's budget argument) are produced on the real connection with deadlines of 0-200 us; how often each budget occurs depends on the machine and is reported in the input distribution",
+                       "sending the unknown-method error succeeds (the peer keeps reading) and the connection does not fail in the middle of a drain: the real refill_all returns `Err(e)` on any receive error other than TimedOut and then drops the unknown-method replies it has collected so far, and a failed send in insert_message_or_send_error drops the rejected call without an answer; neither path is in the model or exercised by the harness",
+                       "which branch a wait with a deadline of a few microseconds takes (time-out after n refills, or the message) is decided by the clock; both are admissible, the check follows the branch the implementation took (the model's budget argument) and requires the same final outcome after the drain"]
     ctx.try_proof()
     exe = vlib.harness_build(["c14"])["c14"]
     vlib.coq_make(["Conn/Rpc.vo"])
@@ -352,6 +455,10 @@ def run(ctx):
         r.shuffle(msgs)
         cases.append((r.randrange(NFILTERS), gen_ops(r, msgs, r.choice(["mixed", "light", "after_all"]), split=r.choice([0.5, 1.0]))))
     run_batch(ctx, exe, drv, cases, "split arrivals")
+
+    # deadlines that may pass while a wait is at work, messages queued
+    cases = [(r.randrange(NFILTERS), gen_tiny(r)) for _ in range(20000 if thorough else 2500)]
+    run_tiny_batch(ctx, exe, drv, cases)
     ctx.exhaustive = False
 
 
